@@ -107,6 +107,11 @@ def wire_packets(kind: str, msgs, rng: random.Random, with_bad: bool = True):
                 pk.append((b"A000001.000 \xff\xfe\x80 not utf-8 \xc3\r\n", "malformed"))
                 pk.append((b"A000001.000 09FF7 1F513\r\n", "malformed"))
                 pk.append((b"\n", "empty"))
+        if kind == "actisense" and i == 1 and isinstance(msgs[i], tuple):
+            # a whole fast-packet message of 134 bytes on one line (product information): 290 characters
+            body = bytes([0x34, 0x08, 0x64, 0x00]) + b"MODEL ID".ljust(32, b"\xff") + b"SW 1.0".ljust(32, b"\xff") \
+                + b"VERSION A".ljust(32, b"\xff") + b"SERIAL 12345".ljust(32, b"\xff") + bytes([1, 2])
+            pk.append((b"A000003.000 23FF6 1F014 " + body.hex().upper().encode() + b"\r\n", "valid"))
         if keep is not None and kind != "actisense":      # (Actisense carries whole messages: nothing to pick)
             valid = [x for x in pk[n0:] if x[1] == "valid"]
             rest = [x for x in pk[n0:] if x[1] != "valid"]
